@@ -73,14 +73,15 @@ structure Rec where
   signer : DName := []
   /-- RRSIG: labels field -/
   labels : Nat := 0
-  /-- DNSKEY: `calculate_key_tag()`; DS: key tag field -/
+  /-- DNSKEY: `calculate_key_tag()`; DS: key tag field; NSEC / NSEC3: 1 iff the type bitmap has SOA -/
   tag : Nat := 0
-  /-- DNSKEY / DS: algorithm code -/
+  /-- DNSKEY / DS: algorithm code; NSEC3: 1 iff the record wraps around (owner hash > next hashed owner) — used by a
+  finding-class predicate only -/
   alg : Nat := 0
   /-- DNSKEY / DS: `algorithm().is_supported()` -/
   algSupp : Bool := false
   /-- DS: `digest_type().is_supported()` -/
-  digSupp : Bool := false
+  digSupp : Bool := false  -- (for DNSKEY records: the flags make the key usable — zone-key bit set, REVOKE clear; class predicate only)
   proof : Proof := .indet
   deriving DecidableEq, Repr, Inhabited
 
@@ -411,8 +412,11 @@ def allAuthInsecure (ns' : List Rec) (vn : List (GKey × GV)) : Bool :=
   !vn.isEmpty && vn.all fun kv =>
     (groupRecs ns' kv.1).all (·.proof == .insecure) && (groupSigs ns' kv.1).all (·.proof == .insecure)
 
+/-- the authority records handed to `verify_nsec` / `verify_nsec3`: an NSEC / NSEC3 record is taken only if its own RRset
+came out Secure (fixes 63406ab for NSEC, cc13292 for NSEC3; before, any Secure authority record of the same owner name
+sufficed) -/
 def selectDenial (ns' : List Rec) (t : Nat) : List (Rec × Nat) :=
-  ns'.zipIdx.filter fun ri => ri.1.rtype == t && ns'.any fun x => x.name == ri.1.name && x.proof == .secure
+  ns'.zipIdx.filter fun ri => ri.1.rtype == t && ri.1.proof == .secure
 
 /-- a record (not just an RRSIG) of the queried type, or a CNAME, at the query name -/
 def answersTheQuestion (q : Query) (an : List Rec) : Bool :=
@@ -564,5 +568,62 @@ def anchorKeyForeignOwner (env : Env) (trace : List (Query × UpOut)) : Bool :=
     match e.2 with
     | .ok m | .noRecords m => m.all.any fun r => r.rtype == tDNSKEY && env.anchor r.rid && !r.name.isRoot
     | _ => false
+
+/-- `C07.AnchorKeyUnusableFlagsSecure` (open, same root cause): a DNSKEY whose key is a trust anchor but whose flags make it
+unusable — zone-key bit clear or REVOKE set (`Rec.digSupp = false` for DNSKEY records) -/
+def anchorKeyUnusableFlags (env : Env) (trace : List (Query × UpOut)) : Bool :=
+  trace.any fun e =>
+    match e.2 with
+    | .ok m | .noRecords m => m.all.any fun r => r.rtype == tDNSKEY && env.anchor r.rid && !r.digSupp
+    | _ => false
+
+/-! ## the concrete shape of the `covers` oracle (`DS::covers`, crates/proto/src/dnssec/rdata/ds.rs) -/
+
+/-- `key.to_digest(name, ds.digest_type()).map(|hash| key.zone_key() && hash.as_ref() == ds.digest())` with
+`unwrap_or(false)` at the call site: `hash` is `none` when the digest type is not supported -/
+def dsCovers (zoneKey : Bool) (hash : Option Bytes) (digest : Bytes) : Bool :=
+  match hash with
+  | some h => zoneKey && h == digest
+  | none => false
+
+/-- `C07.UnsignedNsecBesideSecureRecord` (open): an authority section with an NSEC record that has no RRSIG there while
+another RRset of the same owner has one -/
+def unsignedNsecBesideSignedIn (ns : List Rec) : Bool :=
+  ns.any fun r => r.rtype == tNSEC &&
+    !(ns.any fun x => x.isSig && x.name == r.name && x.covered == tNSEC) &&
+    ns.any fun x => !x.isSig && x.name == r.name && x.rtype != tNSEC &&
+      ns.any fun y => y.isSig && y.name == x.name && y.covered == x.rtype
+
+def unsignedNsecBesideSigned (trace : List (Query × UpOut)) : Bool :=
+  trace.any fun e =>
+    match e.2 with
+    | .ok m | .noRecords m => unsignedNsecBesideSignedIn m.ns
+    | _ => false
+
+/-- `C07.ChildSideDsDenialAccepted` (open): a DS exchange answered with an NSEC owned by the queried name, or an NSEC3
+of the zone named like the queried name (owner `<hash>.<qname>`), whose bitmap has SOA (`Rec.tag = 1` for NSEC / NSEC3
+records): the apex record of the CHILD.  (The parent's own apex NSEC3 — the closest encloser in a parent-side denial —
+has the SOA bit as well, but lives in the parent zone.) -/
+def childSideDsDenial (trace : List (Query × UpOut)) : Bool :=
+  trace.any fun e =>
+    e.1.qtype == tDS &&
+      match e.2 with
+      | .ok m | .noRecords m =>
+        m.ns.any fun r => r.tag == 1 &&
+          ((r.rtype == tNSEC && r.name == e.1.name) || (r.rtype == tNSEC3 && r.name.baseName == e.1.name))
+      | _ => false
+
+/-- `C07.Nsec3WraparoundDeniesDs` (open; root cause: C09's open finding `wraparound-nsec3-covers-every-hash`, the inverted
+wrap-around arm of `find_covering_record`): a negative DS exchange whose authority section holds the wrap-around NSEC3 record
+(`Rec.alg = 1` for NSEC3 records: owner hash > next hashed owner, the last record of its chain) of a zone properly above the
+queried name -/
+def wraparoundNsec3InDsDenial (trace : List (Query × UpOut)) : Bool :=
+  trace.any fun e =>
+    e.1.qtype == tDS &&
+      match e.2 with
+      | .ok m | .noRecords m =>
+        m.an.isEmpty && m.ns.any fun r =>
+          r.rtype == tNSEC3 && r.alg == 1 && r.name.baseName != e.1.name && zoneOf r.name.baseName e.1.name
+      | _ => false
 
 end HickoryVerif.Chain
